@@ -7,6 +7,7 @@ import OpcuaModel.Model.Gate
       frame = <hex>[/o=<hex of the plaintext the frame opens to>][/c=certErr|notRsa|policyErr|ok]
       → one outcome per frame until a panic or EOF: panic:conn | panic:hdr | eof | err:<class> | <result as in recv>,
         then held=<entries>/<chunks>/<bytes>
+    handshake <own rcvBuf> <ack rcvBuf> <ack sndBuf>  → refused | rcvbuf=<n>   (the client's HEL/ACK handshake)
     recv … as in C12 (retained memory of chunk streams)
 -/
 open Opcua Opcua.Recv Opcua.Recv.Raw
@@ -78,6 +79,13 @@ def handle : List String → String
       let outs := runRaw cfg st fs
       " ".intercalate (outs.map rawOutText ++ [heldText (runRawFinal cfg st fs).bufs])
     | _, _, _, _, _ => "bad-op"
+  | ["handshake", own, r, sd] =>
+    match own.toNat?, r.toNat?, sd.toNat? with
+    | some own, some r, some sd =>
+      match handshake Gen.RecvFacts.ackMinBufSize Gen.RecvFacts.ackRcvCappedByHello own r sd with
+      | none => "refused"
+      | some b => s!"rcvbuf={b}"
+    | _, _, _ => "bad-op"
   | "gate" :: r => handleGate r
   | "recv" :: r => handleRecv r
   | _ => "bad-op"
